@@ -11,7 +11,8 @@
 From Coq Require Import ZArith List String Bool.
 From NG Require Import Gen.C12Consts
                        V1.CompileItems V1.Compile V1.CompileRun V1.Compile_proofs
-                       V2.ClosedAst V2.Closed V2.Closed_proofs V2.ClosedGen_proofs.
+                       V2.ClosedAst V2.Closed V2.Closed_proofs V2.ClosedGen_proofs
+                       V2.Expand V2.Expand_proofs.
 Import ListNotations.
 Open Scope string_scope.
 
@@ -115,6 +116,28 @@ Theorem C12_v2_composites_expanded_not_slid :
   forallb (fun o => negb (sinb o slide_sliding_ops)) ["start"; "stop"; "activate"; "deactivate"; "await"; "match"] = true.
 Proof. exact composites_expanded_not_slid. Qed.
 Print Assumptions C12_v2_composites_expanded_not_slid.
+
+(* the expansion, for the modelled fragment (V2/Expand.v: if/else, while with break/continue,
+   match or-/and-groups of events, when / or when / else with single-event cases; tied to the
+   real expand_elements by the correspondence, modulo renaming of the generated names).
+   Full statement wanted:  forall ss, closed_v2 (expand ss).
+   Proved (`_partial`): its static part for source trees of ANY nesting - every label a Goto /
+   ForkHead / CatchPatternFailure / Break / Continue refers to is defined in the expanded flow,
+   every MergeHeads has its ForkHead, only primitives remain.  Missing: scope balance and
+   failure-handler balance along every path of the expansion as a theorem; it is established
+   per program by closedb (C12_v2_checker_sound) on every real expanded flow. *)
+Definition C12_v2_expand_closed_statement : Prop := forall ss, closed_v2 (expand ss).
+
+Theorem C12_v2_expand_static_closed_partial :
+  forall ss, labels_okb (expand ss) = true /\ no_compositeb (expand ss) = true /\ merges_okb (expand ss) = true.
+Proof. exact expand_static_closed. Qed.
+Print Assumptions C12_v2_expand_static_closed_partial.
+
+Theorem C12_v2_expand_labels_exist :
+  forall ss i e l, nth_error (expand ss) i = Some e -> In l (elem_labels e) ->
+                   exists k, (k < List.length (expand ss))%nat /\ nth_error (expand ss) k = Some (ELabel l).
+Proof. exact expand_labels_exist. Qed.
+Print Assumptions C12_v2_expand_labels_exist.
 
 (* regression documentation (F8): the expansion of `when .. else` WITHOUT an EndScope on the else
    path, inside a loop, reaches BeginScope with the scope still open - the runtime error
